@@ -672,7 +672,8 @@ def mutation_leg(ctx, tools, n_programs, per_mutation):
             break
         base_asts.append((ast, src))
         for m in MUTATIONS:
-            for k in range(per_mutation):
+            # the diagnosed classes get four times as many sites (they decide violations)
+            for k in range(per_mutation * (4 if m.strict else 1)):
                 a2 = copy.deepcopy(ast)
                 site = m.apply(a2, rng.fork("m%d.%s.%d" % (i, m.name, k)))
                 if site is None:
